@@ -228,8 +228,10 @@ class MemBackend:
 
     MUTATING = ('upload', 'upload_stream', 'delete')
 
-    def __init__(self, objs=None, delays=None, crash_at=None, fail_call=None, fail_op=None):
+    def __init__(self, objs=None, delays=None, crash_at=None, fail_call=None, fail_op=None, fail_exc=None, hook=None):
         self.objs = dict(objs or {})
+        self.fail_exc = fail_exc          # exception factory for the permanent fault (default BackendFault)
+        self.hook = hook                  # (opname, nth, fn): fn() runs when that call reaches the service
         self.delays = list(delays or [])
         self.crash_at = crash_at          # the crash_at-th mutation (0-based) and everything after never happens
         self.fail_call = fail_call        # index (over all calls) of the call that fails for good
@@ -260,7 +262,11 @@ class MemBackend:
             if self.dead:
                 raise Crash()
             if self.fail_call == idx or (self.fail_op is not None and self.fail_op == (op, nth)):
+                if self.fail_exc is not None:
+                    raise self.fail_exc()
                 raise BackendFault(f'injected permanent failure of {op}({name!r})')
+            if self.hook is not None and self.hook[:2] == (op, nth):
+                self.hook[2]()
             if op in self.MUTATING:
                 if self.crash_at is not None and self.mutations >= self.crash_at:
                     self.dead = True
